@@ -484,4 +484,217 @@ theorem fill_induct (S : SchemaView)
       (ihC ed accC st2 h4) (ihR st2 accR st' h5)
 
 
+/-- `omega` after unfolding the `Vid`/`Eid` abbreviations (facts stated at those types are
+otherwise invisible to it). -/
+macro "nomega" : tactic => `(tactic| ((try simp only [Vid, Eid] at *); omega))
+
+/-! ### list predicates of `IRWF` -/
+
+theorem natsDistinct_of_count {l : List Nat} (h : ∀ x, l.count x ≤ 1) : natsDistinct l = true := by
+  induction l with
+  | nil => rfl
+  | cons n rest ih =>
+    simp only [natsDistinct, Bool.and_eq_true, Bool.not_eq_true', List.contains_eq_mem,
+      decide_eq_false_iff_not]
+    constructor
+    · intro hm
+      have := h n
+      simp at this
+      have : 0 < rest.count n := List.count_pos_iff.mpr hm
+      omega
+    · apply ih
+      intro x
+      have := h x
+      simp [List.count_cons] at this
+      omega
+
+theorem isInterval_of_count {lo hi : Nat} {l : List Nat}
+    (hc : ∀ x, l.count x = inRange lo hi x) (hl : l.length + lo = hi) : isInterval lo l = true := by
+  simp only [isInterval, Bool.and_eq_true, List.all_eq_true, decide_eq_true_eq]
+  constructor
+  · apply natsDistinct_of_count
+    intro x; rw [hc]; unfold inRange; split <;> omega
+  · intro x hx
+    have : 0 < l.count x := List.count_pos_iff.mpr hx
+    rw [hc] at this
+    unfold inRange at this
+    split at this
+    · omega
+    · omega
+
+theorem wfNumberingF_append (a b : List Fold) :
+    wfNumberingF (a ++ b) = (wfNumberingF a && wfNumberingF b) := by
+  induction a with
+  | nil => simp [wfNumberingF]
+  | cons f rest ih => cases f; simp [wfNumberingF, ih, Bool.and_assoc]
+
+theorem wfIntervalsF_append (a b : List Fold) :
+    wfIntervalsF (a ++ b) = (wfIntervalsF a && wfIntervalsF b) := by
+  induction a with
+  | nil => simp [wfIntervalsF]
+  | cons f rest ih => cases f; simp [wfIntervalsF, ih, Bool.and_assoc]
+
+theorem wfEndpointsF_append (p : List Vid) (a b : List Fold) :
+    wfEndpointsF p (a ++ b) = (wfEndpointsF p a && wfEndpointsF p b) := by
+  induction a with
+  | nil => simp [wfEndpointsF]
+  | cons f rest ih => cases f; simp [wfEndpointsF, ih, Bool.and_assoc]
+
+theorem wfEndpointsF_mono {p q : List Vid} (hpq : ∀ x, x ∈ p → x ∈ q) {l : List Fold}
+    (h : wfEndpointsF p l = true) : wfEndpointsF q l = true := by
+  induction l with
+  | nil => rfl
+  | cons f rest ih =>
+    cases f
+    simp only [wfEndpointsF, Bool.and_eq_true, decide_eq_true_eq, List.contains_eq_mem] at h ⊢
+    exact ⟨⟨⟨⟨h.1.1.1.1, hpq _ h.1.1.1.2⟩, h.1.1.2⟩, h.1.2⟩, ih h.2⟩
+
+
+/-! ### clauses 1, 3, 4: numbering, intervals, endpoints -/
+
+/-- Local structural well-formedness of the pieces collected at (and below) vertex `vid`. -/
+structure Shaped (vid : Vid) (acc : Acc) : Prop where
+  edges : ∀ e ∈ acc.edges, e.toVid = e.eid + 1 ∧ e.fromVid < e.toVid ∧
+    (e.fromVid = vid ∨ e.fromVid ∈ acc.verts.map (·.vid)) ∧ e.toVid ∈ acc.verts.map (·.vid)
+  foldsNum : wfNumberingF acc.folds = true
+  foldsInt : wfIntervalsF acc.folds = true
+  foldsEnd : wfEndpointsF (vid :: acc.verts.map (·.vid)) acc.folds = true
+
+theorem Shaped.append {vid : Vid} {a b : Acc} (ha : Shaped vid a) (hb : Shaped vid b) :
+    Shaped vid (a ++ b) := by
+  refine ⟨?_, ?_, ?_, ?_⟩
+  · intro e he
+    simp only [Acc.append_edges, List.mem_append] at he
+    simp only [Acc.append_verts, List.map_append, List.mem_append]
+    rcases he with he | he
+    · obtain ⟨h1, h2, h3, h4⟩ := ha.edges e he
+      exact ⟨h1, h2, h3.imp id Or.inl, Or.inl h4⟩
+    · obtain ⟨h1, h2, h3, h4⟩ := hb.edges e he
+      exact ⟨h1, h2, h3.imp id Or.inr, Or.inr h4⟩
+  · simp [wfNumberingF_append, ha.foldsNum, hb.foldsNum]
+  · simp [wfIntervalsF_append, ha.foldsInt, hb.foldsInt]
+  · simp only [Acc.append_folds, Acc.append_verts, wfEndpointsF_append, Bool.and_eq_true]
+    refine ⟨wfEndpointsF_mono ?_ ha.foldsEnd, wfEndpointsF_mono ?_ hb.foldsEnd⟩
+    · intro x hx
+      simp only [List.mem_cons, List.map_append, List.mem_append] at hx ⊢
+      rcases hx with hx | hx
+      · exact Or.inl hx
+      · exact Or.inr (Or.inl hx)
+    · intro x hx
+      simp only [List.mem_cons, List.map_append, List.mem_append] at hx ⊢
+      rcases hx with hx | hx
+      · exact Or.inl hx
+      · exact Or.inr (Or.inr hx)
+
+/-- pieces hanging below another vertex `w` of the same component: re-root at `vid` -/
+theorem Shaped.reroot {vid w : Vid} {acc : Acc} (hw : w ∈ acc.verts.map (·.vid))
+    (h : Shaped w acc) : Shaped vid acc := by
+  refine ⟨?_, h.foldsNum, h.foldsInt, ?_⟩
+  · intro e he
+    obtain ⟨h1, h2, h3, h4⟩ := h.edges e he
+    refine ⟨h1, h2, ?_, h4⟩
+    rcases h3 with h3 | h3
+    · exact Or.inr (h3 ▸ hw)
+    · exact Or.inr h3
+  · refine wfEndpointsF_mono ?_ h.foldsEnd
+    intro x hx
+    simp only [List.mem_cons] at hx ⊢
+    rcases hx with rfl | hx
+    · exact Or.inr hw
+    · exact Or.inr hx
+
+/-- a new edge `vid → w` in front of the pieces hanging below `w` -/
+theorem Shaped.consEdge {vid w : Vid} {acc : Acc} {e : IREdge} (hw : w ∈ acc.verts.map (·.vid))
+    (h : Shaped w acc) (h1 : e.toVid = e.eid + 1) (h2 : e.fromVid = vid) (h3 : e.toVid = w)
+    (h4 : vid < w) : Shaped vid ({ edges := [e] } ++ acc) := by
+  have hr := Shaped.reroot (vid := vid) hw h
+  refine ⟨?_, ?_, ?_, ?_⟩
+  · intro e' he'
+    simp only [Acc.append_edges, List.cons_append, List.nil_append, List.mem_cons] at he'
+    rcases he' with rfl | he'
+    · refine ⟨h1, by rw [h2, h3]; exact h4, Or.inl h2, ?_⟩
+      rw [h3]; exact hw
+    · exact hr.edges e' he'
+  · exact hr.foldsNum
+  · exact hr.foldsInt
+  · exact hr.foldsEnd
+
+/-- A finished component built from shaped pieces satisfies clauses 1, 3, 4. -/
+theorem shaped_finish {path root acc st comp evs st'} (hroot : root ∈ acc.verts.map (·.vid))
+    (hs : Shaped root acc) (h : finishComponent path root acc st = .ok (comp, evs, st')) :
+    wfNumberingC comp = true ∧ wfIntervalsC comp = true ∧ wfEndpointsC comp = true ∧
+      comp.root = root := by
+  obtain ⟨vs, ev, h1, rfl, _⟩ := finishComponent_inv h
+  have hv := (makeVertices_inv h1).2
+  refine ⟨?_, hs.foldsInt, ?_, rfl⟩
+  · simp only [wfNumberingC, Bool.and_eq_true, List.all_eq_true, beq_iff_eq]
+    exact ⟨fun e he => (hs.edges e he).1, hs.foldsNum⟩
+  · simp only [wfEndpointsC, vertexVids, hv, Bool.and_eq_true, List.all_eq_true,
+      List.contains_eq_mem, decide_eq_true_eq]
+    refine ⟨⟨hroot, ?_⟩, ?_⟩
+    · intro e he
+      obtain ⟨_, h2, h3, h4⟩ := hs.edges e he
+      refine ⟨⟨h2, ?_⟩, h4⟩
+      rcases h3 with h3 | h3
+      · exact h3 ▸ hroot
+      · exact h3
+    · refine wfEndpointsF_mono ?_ hs.foldsEnd
+      intro x hx
+      simp only [List.mem_cons] at hx
+      rcases hx with rfl | hx
+      · exact hroot
+      · exact hx
+
+theorem shaped (S : SchemaView) :
+    (∀ path vid pre node st acc st', fillNode S path vid pre node st = .ok (acc, st') →
+      st.nextVid = st.nextEid + 1 → vid < st.nextVid →
+      vid ∈ acc.verts.map (·.vid) ∧ Shaped vid acc) ∧
+    (∀ path vid ty fields st acc st', fillFields S path vid ty fields st = .ok (acc, st') →
+      st.nextVid = st.nextEid + 1 → vid < st.nextVid → Shaped vid acc) := by
+  apply fill_induct S
+    (P1 := fun _ vid _ _ st acc _ => st.nextVid = st.nextEid + 1 → vid < st.nextVid →
+      vid ∈ acc.verts.map (·.vid) ∧ Shaped vid acc)
+    (P2 := fun _ vid _ _ st acc _ => st.nextVid = st.nextEid + 1 → vid < st.nextVid → Shaped vid acc)
+  · -- node
+    intro path vid pre coerceTo fields st post acc1 st' _ _ ih h0 hv
+    refine ⟨by simp, Shaped.append ?_ (ih h0 hv)⟩
+    exact ⟨by simp, rfl, rfl, rfl⟩
+  · -- nil
+    intro path vid ty st _ _
+    exact ⟨by simp, rfl, rfl, rfl⟩
+  · -- prop
+    intro path vid ty n dirs rest st pty st1 acc1 st' _ h2 _ ih h0 hv
+    obtain ⟨e1, e2, _, _⟩ := registerTags_inv h2
+    refine Shaped.append ⟨by simp, rfl, rfl, rfl⟩ (ih (by nomega) (by nomega))
+  · -- fold
+    intro path vid ty n params fds child rest st ed ps accIn st2 comp evs st3 post evPost st4 st5
+      accR st' _ _ h3 h4 h5 h6 h7 ihC ihR h0 hv
+    have cC := (counted S).1 _ _ _ _ _ _ _ h3
+    have b1 : st.bump.nextVid = st.nextVid + 1 := rfl
+    have b2 : st.bump.nextEid = st.nextEid + 1 := rfl
+    rw [b1, b2] at cC
+    obtain ⟨hin, hsh⟩ := ihC (by rw [b1, b2]; nomega) (by rw [b1]; nomega)
+    obtain ⟨hvs, hes, hcore⟩ := allVids_finish h4
+    have c34 := resolveFilters_core h5
+    obtain ⟨hv5, he5, _, _⟩ := registerTags_inv h6
+    have := cC.sync; have := cC.vmono
+    have hR := ihR (by rw [hv5, he5, ← c34.1, ← c34.2.1, ← hcore.1, ← hcore.2.1]; nomega)
+      (by rw [hv5, ← c34.1, ← hcore.1]; nomega)
+    obtain ⟨f1, f2, f3, f4⟩ := shaped_finish hin hsh h4
+    refine Shaped.append ⟨by simp, ?_, ?_, ?_⟩ hR
+    · simp [mkFold, wfNumberingF, f1, h0]
+    · simp only [mkFold, wfIntervalsF, f2, Bool.and_true]
+      exact isInterval_of_count (by intro x; rw [hes]; exact cC.eids x) (by rw [hes]; exact cC.elen)
+    · simp [mkFold, wfEndpointsF, f3, f4, hv]
+  · -- other edges
+    intro path vid ty n params kind child rest st ed ps r accC st2 accR st' _ _ _ _ h4 h5 ihC ihR h0 hv
+    have cC := (counted S).1 _ _ _ _ _ _ _ h4
+    have b1 : st.bump.nextVid = st.nextVid + 1 := rfl
+    have b2 : st.bump.nextEid = st.nextEid + 1 := rfl
+    rw [b1, b2] at cC
+    obtain ⟨hin, hsh⟩ := ihC (by rw [b1, b2]; nomega) (by rw [b1]; nomega)
+    have := cC.sync; have := cC.vmono
+    have hR := ihR (by nomega) (by nomega)
+    exact Shaped.append (Shaped.consEdge hin hsh h0 rfl rfl hv) hR
+
 end TF.Frontend
